@@ -33,7 +33,7 @@ class C06(Check):
     level = "exploration"
     rule = (
         "simulated MPI worlds of 2, 3, 4, 5 and 8 ranks run the library's real MPI code paths for drivers {catalog creation "
-        "from DataFrame / HDF5 / random generator with centres or an index column, reopen (with and without metadata "
+        "from DataFrame / HDF5 / FITS / Parquet / random generator with given centres, an index column or generated centres, reopen (with and without metadata "
         "computation), build_trees, crosscorrelate, autocorrelate, HistData.from_catalog, CorrFunc/CorrData/Configuration "
         "file round trips} x max_workers {None, 1, 2, size, size+1} x send completion {eager, rendezvous} x scheduler policy "
         "{random, fifo, lifo, newest-sender, sentinel-first, starve a rank} x seeds. Per run: no logical deadlock, no rank "
@@ -61,7 +61,8 @@ class C06(Check):
         for rep in range(reps):
             for driver in DRIVERS:
                 for size in (2, 3, 4, 5, 8):
-                    variants = ["dataframe/centres", "hdf5/index", "random/centres", "dataframe/index", "dataframe/generate"] if driver == "create" else ["-"]
+                    variants = ["dataframe/centres", "hdf5/index", "random/centres", "dataframe/index", "dataframe/generate",
+                                "fits/centres", "parquet/index"] if driver == "create" else ["-"]
                     for var in variants:
                         if q and driver == "create" and size in (5,) and var != "dataframe/centres":
                             continue
@@ -191,16 +192,17 @@ class C06(Check):
             st, val = self._ask("prepare", (str(tmp / "template"), case["seed"] % 1000))
             if st != "ok":
                 return [result(ERROR, detail=f"reference prepare failed: {val}", nontrivial=False)]
-            if driver == "create" and params["source"] == "hdf5":
-                self._ask("write_hdf", (str(tmp / "input.hdf5"), params["seed"], params["n"]))
+            src_ext = {"hdf5": ".hdf5", "fits": ".fits", "parquet": ".pqt"}
+            if driver == "create" and params["source"] in src_ext:
+                self._ask("write_source", (params["source"], str(tmp / ("input" + src_ext[params["source"]])), params["seed"], params["n"]))
 
             def fresh_run_dir(tag):
                 d = tmp / tag
                 shutil.rmtree(d, ignore_errors=True)
                 d.mkdir()
                 shutil.copytree(tmp / "template" / "base", d / "base")
-                if (tmp / "input.hdf5").exists():
-                    shutil.copy(tmp / "input.hdf5", d / "input.hdf5")
+                for f in tmp.glob("input.*"):
+                    shutil.copy(f, d / f.name)
                 return d
 
             st, ref = self._ask("run", (driver, params, str(fresh_run_dir("ref"))))
